@@ -49,8 +49,14 @@ def add_noise(R, nz):
     return R + nz["k"] * np.finfo(float).eps * N
 
 
+def rotvec_exp():
+    """for the exponential alone the rotation magnitude is unbounded: up to several turns"""
+    mags = st.one_of(gens.rot_angles(-12), gens.rot_angles(-12), gens.logmag(-4, -1), gens.fl(PI, 25.0), st.sampled_from([2 * PI, 4 * PI, 3 * PI]))
+    return st.tuples(gens.direction3(), mags).map(lambda t: {"axis": t[0], "mag": t[1]})
+
+
 def s_exp3():
-    return st.fixed_dictionaries({"kind": st.just("exp3"), "w": rotvec(), "v": st.one_of(gens.trans(3, -6, 6), st.just([0.0, 0.0, 0.0])),
+    return st.fixed_dictionaries({"kind": st.just("exp3"), "w": rotvec_exp(), "v": st.one_of(gens.trans(3, -6, 6), st.just([0.0, 0.0, 0.0])),
                                   "se": st.booleans(), "matrix": st.booleans(), "theta_form": st.booleans(),
                                   "norm6": st.sampled_from([False, False, False, False, True])})
 
@@ -62,7 +68,7 @@ def s_log3():
 
 
 def s_exp2():
-    return st.fixed_dictionaries({"kind": st.just("exp2"), "w": st.one_of(gens.angle2(), gens.signed_logmag(-12, 0.49), gens.signed_logmag(-4, -1)),
+    return st.fixed_dictionaries({"kind": st.just("exp2"), "w": st.one_of(gens.angle2(), gens.signed_logmag(-12, 0.49), gens.signed_logmag(-4, -1), gens.fl(-25.0, 25.0)),
                                   "v": st.one_of(gens.trans(2, -6, 6), st.just([0.0, 0.0])),
                                   "se": st.booleans(), "matrix": st.booleans(), "theta_form": st.booleans()})
 
@@ -89,7 +95,7 @@ def _theta_conv(kind, vals):
 
 def s_thetatype():
     return st.fixed_dictionaries({"kind": st.just("thetatype"), "dim": st.sampled_from([2, 3]), "type": st.sampled_from(THETA_TYPES),
-                                  "deg": st.lists(st.integers(0, 120), min_size=1, max_size=3), "unit": st.sampled_from(["deg", "rad"]),
+                                  "deg": st.lists(st.integers(-120, 120), min_size=1, max_size=3), "unit": st.sampled_from(["deg", "rad"]),
                                   "axis": gens.direction3(), "q": gens.trans(3, -2, 1), "prismatic": st.booleans()})
 
 
@@ -105,7 +111,9 @@ def _thetatype(case):
     """exp(S, theta) = exp(theta S) for a unit twist, whatever numeric type carries the (integer-valued) angle, in either unit"""
     dim, kind, unit = case["dim"], case["type"], case["unit"]
     c = Checker("thetatype", dim=dim, type=kind, unit=unit, prismatic=case["prismatic"])
-    vals = [int(v) for v in case["deg"]] if unit == "deg" else [int(v) % 4 for v in case["deg"]]       # small integers as radians
+    vals = [int(v) for v in case["deg"]] if unit == "deg" else [(abs(int(v)) % 4) * (1 if v >= 0 else -1) for v in case["deg"]]       # small integers as radians
+    if "uint" in kind:
+        vals = [abs(v) for v in vals]
     multi = kind.startswith(("array:", "list:"))
     if not multi:
         vals = vals[:1]
@@ -185,6 +193,10 @@ def _exp3(case):
             ok, E2 = c.lib("trexp(S,theta)", b.trexp, uarg, theta)
             if ok:
                 c.eq("trexp(S,theta)/value", E2, want, TOL, sc)
+            # a negative theta is the inverse motion
+            okn, E3 = c.lib("trexp(S,-theta)", b.trexp, uarg.copy(), -theta)
+            if okn:
+                c.eq("trexp(S,-theta)/value", E3, refs.mp_expm(-hat), TOL, sc)
     # class level
     if se:
         ok, X = c.lib("SE3.Exp", L.SE3.Exp, arg.copy())
@@ -305,6 +317,9 @@ def _exp2(case):
             ok, E2 = c.lib("trexp2(S,theta)", b.trexp2, uarg, theta)
             if ok:
                 c.eq("trexp2(S,theta)/value", E2, want, TOL, sc)
+            okn, E3 = c.lib("trexp2(S,-theta)", b.trexp2, uarg.copy(), -theta)
+            if okn:
+                c.eq("trexp2(S,-theta)/value", E3, refs.mp_expm(-hat), TOL, sc)
     if se:
         ok, X = c.lib("SE2.Exp", L.SE2.Exp, arg.copy())
         if ok and c.true("SE2.Exp/type", type(X) is L.SE2 and len(X) == 1, "SE2.Exp gave %s len %s" % (type(X).__name__, len(X))):
